@@ -56,7 +56,7 @@ def generate(tier, rng):
         A = gen.random_ptier(rng, tmax=20, maxn=6, name="A")
         B = gen.random_ptier(rng, tmax=25, maxn=6, name="B")
         cases.append({"op": "union", "tier": A, "args": {"other": B}, "scale": gen.pick_scale(rng)})
-    for _ in range(100 if tier == "quick" else 2000):
+    for _ in range(300 if tier == "quick" else 3000):
         tiers = []
         for k in range(rng.randint(2, 5)):
             t = gen.random_itier(rng, name="i%d" % k, tmax=30, maxn=4) if rng.random() < 0.6 else gen.random_ptier(rng, name="p%d" % k, tmax=30, maxn=4)
